@@ -139,9 +139,20 @@ class C10(PropCheck):
                         exp = {"get pipe": (rxf[0].split(":")[0] if rxf else "N"), "get tx_full": "T" if len(txf) >= 3 else "F",
                                "get irq_dr": "T" if fl & 0x40 else "F", "get irq_ds": "T" if fl & 0x20 else "F",
                                "get irq_df": "T" if fl & 0x10 else "F"}[m]
-                        if res != exp:
+                        # which accessors the recorded finding covers: exactly those whose subject the call itself changes
+                        # (the STATUS byte kept is the one clocked out before the call's LAST transaction took effect).
+                        # Everything else is accurate right after these calls on the code as it is - e.g. `pipe` after
+                        # read() (the flag is cleared AFTER the payload was popped) - and a mismatch there is a new violation
+                        # (seeded change C10-s23 cleared the flag before the pop).
+                        known = {"read": ("get irq_dr",), "clear_status_flags": ("get irq_dr", "get irq_ds", "get irq_df"),
+                                 "flush_rx": ("get pipe",), "flush_tx": ("get tx_full",)}[last_tx]
+                        resumed = last_tx == "clear_status_flags" and pr["ce"] == "1" and int(pr["cfg"]) & 1 == 0
+                        if res != exp and (m in known or resumed):
                             stale = (k, f"right after {last_tx}(), {t[2]} is {res} but the radio's state says {exp} (stale until the "
                                         "next update())")
+                        elif res != exp:
+                            what = f"right after {last_tx}(), {t[2]} is {res} but the radio's state says {exp}"
+                            break
                     if fresh:
                         exp = {"get pipe": (rxf[0].split(":")[0] if rxf else "N"), "get tx_full": "T" if len(txf) >= 3 else "F",
                                "get irq_dr": "T" if fl & 0x40 else "F", "get irq_ds": "T" if fl & 0x20 else "F",
